@@ -297,6 +297,10 @@ def show(line):
 def idem_sig(r):
     """Triage label of a non-idempotent run (used only to key known findings)."""
     joined, detached = r.get("comment_moves") or [0, 0]
+    la, lb = r["out1"].splitlines(), r["out2"].splitlines()
+    if [l for l in la if l.strip()] == [l for l in lb if l.strip()]:
+        # the two outputs differ in blank lines only
+        return "blank-lines" + ("+comment-joined" if joined else "") + ("+comment-detached" if detached else "")
     if joined and detached:
         return "comment-joined+detached"
     if joined:
